@@ -51,7 +51,11 @@ class SimT1(object):
 class SimT2(object):
     """Type 2 Tag: READ, WRITE, SECTOR SELECT; `size` bytes of memory (sector = 1024 bytes)."""
 
-    def __init__(self, size=64, ndef=b"\xD1\x01\x03\x54\x02\x65\x6E", uid=b"\x08\x01\x02\x03\x04\x05\x06"):
+    def __init__(self, size=64, ndef=b"\xD1\x01\x03\x54\x02\x65\x6E", uid=b"\x08\x01\x02\x03\x04\x05\x06",
+                 version=None, auth=False):
+        """version: answer to GET_VERSION (60h) or None (command unknown: the tag stays mute);
+        auth: the tag knows AUTHENTICATE (1Ah 00h) and answers AFh + 8 byte"""
+        self.version, self.auth = version, auth
         m = bytearray(size)
         m[0:3] = uid[0:3]
         m[4:8] = uid[3:7]
@@ -102,6 +106,10 @@ class SimT2(object):
             else:
                 self.mem[a:a + 4] = cmd[2:6]
             return b"\x0A"
+        if cmd == b"\x60" and self.version is not None:
+            return bytes(self.version)
+        if cmd == b"\x1A\x00" and self.auth:
+            return b"\xAF" + bytes(range(8))
         if cmd == b"\xC2\xFF":
             if len(self.mem) > 1024:
                 self.pending = True
